@@ -34,4 +34,24 @@ theorem lookups_depend_on_abstraction_only_ext (ops : List (Env × XOp)) (fs1 fs
 example : Healthy cfg cache FS.empty ∧ absCache cfg cache FS.empty = absCache cfg cache FS.empty :=
   ⟨healthy_of_empty_cache cfg cache FS.empty (fun _ _ _ => Or.inl rfl) (fun _ _ _ => rfl), rfl⟩
 
+/-- **Earlier entries never resurface**: whatever was done to a key (`op1`: an insertion, a removal, a
+lookup), once that key is inserted or removed again (`op2`), the cache is indistinguishable — by
+EVERY later history of keyed writes, reads, lookups, index and by-address operations — from the
+cache on which only `op2` was done; the two also reach the same abstract cache.  The shadowed
+record is still in the bucket file, and no sequence of calls can bring it back or detect it. -/
+theorem shadowed_entry_never_resurfaces (env1 env2 : Env) (op1 op2 : IOp) (fs : FS)
+    (h : Healthy cfg cache fs) (hl : HexLen cfg) (w1 : OpWF cfg op1) (w2 : OpWF cfg op2)
+    (hk : SpecLaws.iopKey op1 = SpecLaws.iopKey op2) (hw : SpecLaws.isIndexWrite op2 = true)
+    (later : List (Env × COp)) (hlater : ∀ x ∈ later, x.2.WF cfg) :
+    (cRunOps cfg cache later (cRunOps cfg cache [(env1, .index op1), (env2, .index op2)] fs).2).1 =
+      (cRunOps cfg cache later (cRunOps cfg cache [(env2, .index op2)] fs).2).1 ∧
+    absCache cfg cache
+        (cRunOps cfg cache later (cRunOps cfg cache [(env1, .index op1), (env2, .index op2)] fs).2).2 =
+      absCache cfg cache (cRunOps cfg cache later (cRunOps cfg cache [(env2, .index op2)] fs).2).2 :=
+  SpecLaws.shadowed_op_unobservable cfg cache env1 env2 op1 op2 fs h hl w1 w2 hk hw later hlater
+
+/-- The hypotheses on the two operations are satisfiable: an insertion shadowed by a removal. -/
+example (o : WriteOpts) : SpecLaws.iopKey (.ins [7] o) = SpecLaws.iopKey (.del [7]) ∧
+    SpecLaws.isIndexWrite (.del [7]) = true := ⟨rfl, rfl⟩
+
 end Cacache.C05x
